@@ -84,6 +84,7 @@ def tupleT : ClsRef := bref cs!"tuple"
 def dictT : ClsRef := bref cs!"dict"
 def setT : ClsRef := bref cs!"set"
 def frozensetT : ClsRef := bref cs!"frozenset"
+def decimalT : ClsRef := ⟨Tables.decimalModule, [Tables.decimalName]⟩
 def qnameT : ClsRef := ⟨Tables.qnameModule, [Tables.qnameName]⟩
 
 inductive Val
@@ -100,6 +101,9 @@ inductive Val
   | bytes (cls : ClsRef) (bs : List Nat) (repr : Str)
   /-- `xml.etree.ElementTree.QName`; `text` is `value.text` -/
   | qname (text : Str)
+  /-- `decimal.Decimal`, as `as_tuple()` shows it (C05's `Dec`); `repr` =
+      `repr(value)` = `Decimal('<str(value)>')` -/
+  | decimal (d : Xs.Conv.Dec) (repr : Str)
   /-- a value of class `cls` whose `repr` is the constructor call
       `callee(args)` (`Decimal('1.5')`, `XmlDate(2000, 1, 2)`); `n` is its
       numeric value when it takes part in numeric `==` (Decimal) -/
@@ -165,6 +169,47 @@ def numOfF64 : Xs.Conv.F64 → NumV
         let k := min (twoAdic 64 m) (-q).toNat
         .fin (sgn * (m / 2 ^ k : Nat)) (2 ^ ((-q).toNat - k))
 
+/-- the exact value of a Decimal as a fraction in lowest terms (a signaling NaN
+is kept apart: comparing with it raises) -/
+def numOfDec : Xs.Conv.Dec → NumV
+  | .inf neg => if neg then .ninf else .pinf
+  | .nan _ sg _ => if sg then .snan else .nan
+  | .fin neg c x =>
+    if c = 0 then .fin 0 1
+    else
+      let sgn : Int := if neg then -1 else 1
+      if x ≥ 0 then .fin (sgn * (c * 10 ^ x.toNat : Nat)) 1
+      else
+        let p := 10 ^ (-x).toNat
+        let g := Nat.gcd c p
+        .fin (sgn * (c / g : Nat)) (p / g)
+
+/-- `"%+d" % i` -/
+def signedDec (i : Int) : Str := (if i < 0 then '-' else '+') :: natStr i.natAbs
+
+/-- `Decimal.__str__`: the scientific-notation rules of the decimal module
+(plain notation while the exponent is ≤ 0 and the value not below 1e-6,
+otherwise one digit, the rest after the point, `E±n`) -/
+def decStr : Xs.Conv.Dec → Str
+  | .inf neg => (if neg then ['-'] else []) ++ cs!"Infinity"
+  | .nan neg sg diag =>
+    (if neg then ['-'] else []) ++ (if sg then ['s'] else []) ++ ['N', 'a', 'N'] ++ (if diag = 0 then [] else natStr diag)
+  | .fin neg c x =>
+    let ds := natStr c
+    let n : Int := ds.length
+    let left := x + n
+    let body :=
+      if x ≤ 0 ∧ left > -6 then
+        if left ≤ 0 then '0' :: '.' :: (List.replicate (-left).toNat '0' ++ ds)
+        else if left ≥ n then ds
+        else ds.take left.toNat ++ '.' :: ds.drop left.toNat
+      else
+        (if ds.length ≤ 1 then ds else ds.take 1 ++ '.' :: ds.drop 1) ++ 'E' :: signedDec (left - 1)
+    (if neg then ['-'] else []) ++ body
+
+/-- `repr(d)` -/
+def decRepr (d : Xs.Conv.Dec) : Str := Tables.decimalName ++ cs!"('" ++ decStr d ++ cs!"')"
+
 def f64Finite : Xs.Conv.F64 → Bool
   | .fin _ _ _ => true
   | _ => false
@@ -187,6 +232,7 @@ def numOf : Val → Option NumV
   | .int i => some (.fin i 1)
   | .float x _ => some (numOfF64 x)
   | .opaque _ _ _ (some n) => some n
+  | .decimal d _ => some (numOfDec d)
   | _ => Option.none
 
 /-- `a == b` when `a` is not a list/tuple/dict/dataclass -/
@@ -319,6 +365,8 @@ inductive PyExpr
   | floatCall (x : Xs.Conv.F64) (arg : Str)
   /-- `QName(<json.dumps(text, ensure_ascii=False)>)` -/
   | qnameCall (text : Str)
+  /-- `Decimal('…')`: the whole `repr` text -/
+  | decimalCall (d : Xs.Conv.Dec) (text : Str)
   | opaqueCall (cls : ClsRef) (callee : List Str) (args : Str) (n : Option NumV)
   /-- `Qual.Name.MEMBER` (`__qualname__` of the class, `.name` of the member) -/
   | enumRef (cls : ClsRef) (member : Str)
@@ -392,6 +440,7 @@ def PyExpr.text (level : Nat) : PyExpr → Str
   | .floatCall _ a => Tables.floatLitPre ++ a ++ Tables.floatLitPost
   | .qnameCall t => Tables.qnameLitPre ++ jsonBody t ++ Tables.qnameLitPost
   | .opaqueCall _ callee args _ => dotted callee ++ args
+  | .decimalCall _ t => t
   | .enumRef c m => dotted c.path ++ Tables.enumStrSep ++ m
   | .call c kws => dotted c.path ++ cs!"(\n" ++ textKw (level + 1) true kws ++ cs!"\n" ++ spaces level ++ cs!")"
 def textItems (level : Nat) : List PyExpr → Str
@@ -415,6 +464,7 @@ def PyExpr.types : PyExpr → List ClsRef
   | .floatCall _ _ => [floatT]
   | .qnameCall _ => [qnameT]
   | .opaqueCall c _ _ _ => [c]
+  | .decimalCall _ _ => [decimalT]
   | .enumRef c _ => [c]
   | .call c kws => c :: typesKw kws
 def typesL : List PyExpr → List ClsRef
@@ -444,6 +494,7 @@ def PyExpr.refs : PyExpr → List (List Str × ClsRef)
   | .floatCall _ _ => [([floatCallee], floatT)]
   | .qnameCall _ => [([qnameCallee], qnameT)]
   | .opaqueCall c callee _ _ => [(callee, c)]
+  | .decimalCall _ _ => [([Tables.decimalName], decimalT)]
   | .enumRef c _ => [(c.path, c)]
   | .call c kws => (c.path, c) :: refsKw kws
 def refsL : List PyExpr → List (List Str × ClsRef)
@@ -483,6 +534,7 @@ def render (W : World) : Val → PyExpr
   | .bytes c bs r => .lit (.bytes bytesT bs r) r c
   | .qname t => .qnameCall t
   | .opaque c callee args n => .opaqueCall c callee args n
+  | .decimal d r => .decimalCall d r
   | .enum c m => .enumRef c m
   | .list xs => .arr .list (renderL W xs)
   | .tuple xs => .arr .tuple (renderL W xs)
@@ -792,6 +844,16 @@ def decodeBytesLit (t : Str) : Option (List Nat) :=
 def tblPrintable (c : Char) : Bool :=
   !(Tables.unprintableRanges.any fun ab => ab.1 ≤ c.toNat && c.toNat ≤ ab.2)
 
+/-- `Decimal('…')` → the value: the callee name, one string literal, C05's
+`decimalParse` (= `Decimal(str)`) on what the literal denotes -/
+def readDecimal (t : Str) : Option Xs.Conv.Dec :=
+  let pre := Tables.decimalName ++ ['(']
+  if pre.isPrefixOf t && t.getLast? == some ')' then
+    match decodeStrLit ((t.drop pre.length).dropLast) with
+    | some s => Xs.Conv.decimalParse Py.Env.ascii s
+    | Option.none => Option.none
+  else Option.none
+
 def kwGet (n : Str) : List (Str × Val) → Option Val
   | [] => Option.none
   | (k, v) :: r => if k == n then some v else kwGet n r
@@ -891,6 +953,16 @@ def eval (W : World) (env : Env) : PyExpr → Except Err Val
         | some t' => .ok (.qname t')
         | Option.none => .error .unmodelled
       else .error .unmodelled
+  | .decimalCall _ t =>
+    match resolve W env [Tables.decimalName] with
+    | .error e => .error e
+    | .ok r =>
+      if r = decimalT then
+        -- the argument is a string literal; `Decimal(str)` is C05's model of the constructor
+        match readDecimal t with
+        | some d => .ok (.decimal d t)
+        | Option.none => .error .unmodelled
+      else .error .unmodelled
   | .opaqueCall c callee args n =>
     match resolve W env callee with
     | .error e => .error e
@@ -956,6 +1028,7 @@ mutual
 /-- does compiling the text depend on string-literal decoding this model does
 not cover (then the compile-time `SyntaxError` would pre-empt everything) -/
 def PyExpr.syntaxRisk : PyExpr → Bool
+  | .decimalCall _ t => (readDecimal t).isNone
   | .lit (.float _ _) t _ => (readFloat t).isNone
   | .floatCall _ a => (readFloat a).isNone
   | .enumRef _ m => !enumNameOK m
@@ -986,6 +1059,7 @@ def PyExpr.depth : PyExpr → Nat
   | .floatCall _ _ => 1
   | .qnameCall _ => 1
   | .opaqueCall _ _ _ _ => 1
+  | .decimalCall _ _ => 1
   | .arr .frozenset [] => 1
   | .arr .frozenset (x :: xs) => 2 + depthL (x :: xs)   -- `frozenset({ … })`
   | .arr _ xs => 1 + depthL xs
@@ -1019,6 +1093,7 @@ nothing catches it: `render` itself fails. -/
 mutual
 def hasSNaN : Val → Bool
   | .opaque _ _ _ (some .snan) => true
+  | .decimal (.nan _ true _) _ => true
   | .list xs => hasSNaNL xs
   | .tuple xs => hasSNaNL xs
   | .set _ xs => hasSNaNL xs
